@@ -32,7 +32,9 @@ async fn scheduler_contract() {
                 0 | 1 => {
                     let peer = 1 + rng.below(2);
                     let id = 1 + rng.below(6);
-                    let h = [(id * 10 + rng.below(2)) as u8; 32];
+                    // (the id next to a hash is the announcing peer's choice: now and then a hash comes with another id)
+                    let hid = if rng.below(4) == 0 { 1 + rng.below(6) } else { id };
+                    let h = [(hid * 10 + rng.below(2)) as u8; 32];
                     state.received_block_picture.entry(peer).or_default().push_back((id, h));
                     trace.push(format!("announce(peer={},id={},h={})", peer, id, h[0]));
                 }
@@ -48,7 +50,7 @@ async fn scheduler_contract() {
                     for (p, v) in sel.iter() {
                         for w in v.windows(2) { if w[0].1 > w[1].1 { witness(format!("run {} peer {}: requests not in height order: {:?}", run, p, trace)); } }
                         for (h, id) in v.iter() {
-                            if in_flight.iter().any(|(p2, h2, id2)| p2 == p && h2 == h && id2 == id) { witness(format!("run {} peer {}: block {}-{} requested while already in flight: {:?}", run, p, id, h[0], trace)); }
+                            if in_flight.iter().any(|(p2, h2, _id2)| p2 == p && h2 == h) { witness(format!("run {} peer {}: block {}-{} requested while already in flight: {:?}", run, p, id, h[0], trace)); }
                             let old = before.iter().find(|(bp, _)| bp == p).map(|(_, q)| q.clone()).unwrap_or_default();
                             if !old.iter().any(|(bid, bh, st, _)| bid == id && *bh == h[0] && *st == 0) { witness(format!("run {} peer {}: requested {}-{} was not Queued before: {:?}", run, p, id, h[0], trace)); }
                             in_flight.push((*p, *h, *id));
@@ -81,7 +83,7 @@ async fn scheduler_contract() {
                 let fetching = deq.iter().filter(|b| matches!(b.status, BlockStatus::Fetching)).count();
                 if fetching > batch { witness(format!("run {} peer {}: {} fetches in flight > batch {}: {:?}", run, p, fetching, batch, trace)); }
                 for i in 0..deq.len() { for j in (i + 1)..deq.len() {
-                    if deq[i].block_id == deq[j].block_id && deq[i].block_hash == deq[j].block_hash { witness(format!("run {} peer {}: block {}-{} queued twice: {:?}", run, p, deq[i].block_id, deq[i].block_hash[0], trace)); }
+                    if deq[i].block_hash == deq[j].block_hash { witness(format!("run {} peer {}: block {}-{} queued twice: {:?}", run, p, deq[i].block_id, deq[i].block_hash[0], trace)); }
                 } }
                 for b in deq.iter() { if b.retry_count > MAX_RETRIES_PER_BLOCK + 1 { witness(format!("retry count {} exceeds bound", b.retry_count)); } }
             }
@@ -145,5 +147,28 @@ async fn abandoned_blocks_do_not_starve_the_queue() {
         if !requested {
             witness(format!("batch size {}: {} block(s) failed until the scheduler gave up on them; a further block announced by the same peer is never requested although nothing is in flight — the abandoned entries keep using up the quota", batch, batch));
         }
+    }
+}
+
+/// C16 ("the same block is never in flight twice for the same peer"): a hash announced again under other ids — the id in
+/// an announcement is the peer's choice — is neither queued nor requested a second time (scenario of an independent audit)
+#[tokio::test]
+#[serial_test::serial]
+async fn hash_announced_under_several_ids_is_requested_once() {
+    let t = TestManager::default();
+    let blockchain = t.blockchain_lock.read().await;
+    let mut state = BlockchainSyncState::new(10);
+    let hash = [9u8; 32];
+    let mut requests = 0;
+    for id in 5..16u64 {
+        state.received_block_picture.entry(1).or_default().push_back((id, hash));
+        if id == 5 { state.received_block_picture.entry(1).or_default().push_back((id + 100, hash)); }
+        state.build_peer_block_picture(blockchain.deref());
+        let round = state.get_blocks_to_fetch_per_peer();
+        requests += round.get(&1).map(|v| v.iter().filter(|(h, _)| *h == hash).count()).unwrap_or(0);
+    }
+    let queued = state.blocks_to_fetch.get(&1).map(|q| q.iter().filter(|b| b.block_hash == hash).count()).unwrap_or(0);
+    if requests != 1 || queued != 1 {
+        witness(format!("peer 1 announced one block hash under 12 different ids while its fetch was in flight: the block was requested {} times from that peer and has {} entries in its queue (batch size 10)", requests, queued));
     }
 }
